@@ -33,3 +33,100 @@ Proof. vm_compute. reflexivity. Qed.
 
 Example escape_specials : xml_escape [60; 97; 38; 34] = [38;108;116;59; 97; 38;97;109;112;59; 38;113;117;111;116;59].
 Proof. vm_compute. reflexivity. Qed.
+
+(* ---- ModifiedLines Display / FromStr ---- *)
+Ltac solve_nolf := intros Hin; cbn [In] in Hin;
+  repeat (destruct Hin as [Hin|Hin]; [discriminate Hin|]); exact Hin.
+Ltac solve_wf := repeat constructor; cbn [mc_orig mc_removed mc_lines length];
+  try (unfold U32_MAX, USIZE_MAX; lia); try solve_nolf.
+
+(* a report with: a line ending in CR, CR inside a line, an empty line, a digits-only line that looks like a
+   header ("2 0 0"), leading / trailing blanks, a two-scalar non-ASCII line, the largest u32, a chunk without lines *)
+Definition ex_report : list mchunk :=
+  [MkMC 1 6 [[102; 110; 13]; []; [50; 32; 48; 32; 48]; [32; 32; 97; 13; 98; 32]];
+   MkMC 4294967295 0 [];
+   MkMC 25 3 [[233; 20013]; [13]]].
+
+Example ex_report_wf : WF ex_report.
+Proof. unfold ex_report. solve_wf. Qed.
+
+Example ex_report_printed : print_modified ex_report =
+  [49;32;54;32;52;10; 102;110;13;10; 10; 50;32;48;32;48;10; 32;32;97;13;98;32;10;
+   52;50;57;52;57;54;55;50;57;53;32;48;32;48;10;
+   50;53;32;51;32;50;10; 233;20013;10; 13;10].
+Proof. vm_compute. reflexivity. Qed.
+
+(* hypothesis of print_parse_roundtrip (and its conclusion, computed) *)
+Example ex_report_roundtrip : parse_modified (print_modified ex_report) = Some ex_report.
+Proof. vm_compute. reflexivity. Qed.
+Example ex_report_roundtrip_by_theorem : parse_modified (print_modified ex_report) = Some ex_report.
+Proof. apply print_parse_roundtrip_lemma. exact ex_report_wf. Qed.
+
+(* decimal_roundtrip at the ends of the u32 range; one above is rejected *)
+Example dec_max : dec 4294967295 = [52;50;57;52;57;54;55;50;57;53] /\ dec 0 = [48].
+Proof. vm_compute. split; reflexivity. Qed.
+Example dec_max_parses : parse_uint U32_MAX (dec 4294967295) = Some 4294967295
+  /\ parse_uint U32_MAX (dec 4294967296) = None /\ parse_uint USIZE_MAX (dec 4294967296) = Some 4294967296.
+Proof. vm_compute. repeat split; reflexivity. Qed.
+Example parse_uint_forms :   (* "+7" "007" ok; "+" "-7" "" "7x" "٧" (Arabic-Indic digit) rejected *)
+  parse_uint U32_MAX [43; 55] = Some 7 /\ parse_uint U32_MAX [48; 48; 55] = Some 7 /\
+  parse_uint U32_MAX [43] = None /\ parse_uint U32_MAX [45; 55] = None /\ parse_uint U32_MAX [] = None /\
+  parse_uint U32_MAX [55; 120] = None /\ parse_uint U32_MAX [1639] = None.
+Proof. vm_compute. repeat split; reflexivity. Qed.
+
+(* parse_print_parse: the texts of the unit test modified_lines_from_str (src/rustfmt_diff.rs) *)
+Definition ut_src : text :=   (* "1 6 2\nfn some() {}\nfn main() {}\n25 3 1\n  struct Test {}" *)
+  [49;32;54;32;50;10; 102;110;32;115;111;109;101;40;41;32;123;125;10; 102;110;32;109;97;105;110;40;41;32;123;125;10;
+   50;53;32;51;32;49;10; 32;32;115;116;114;117;99;116;32;84;101;115;116;32;123;125].
+Example ut_parses : parse_modified ut_src =
+  Some [MkMC 1 6 [[102;110;32;115;111;109;101;40;41;32;123;125]; [102;110;32;109;97;105;110;40;41;32;123;125]];
+        MkMC 25 3 [[32;32;115;116;114;117;99;116;32;84;101;115;116;32;123;125]]].
+Proof. vm_compute. reflexivity. Qed.
+Example ut_errs :   (* "1 5 3" and "1 5 3\na\nb" are Err(()) *)
+  parse_modified [49;32;53;32;51] = None /\ parse_modified [49;32;53;32;51;10;97;10;98] = None.
+Proof. vm_compute. split; reflexivity. Qed.
+(* a header may end in CR (White_Space), a reported line keeps its CR *)
+Example crlf_report : parse_modified [49;32;48;32;49;13;10; 120;13;10] = Some [MkMC 1 0 [[120; 13]]].
+Proof. vm_compute. reflexivity. Qed.
+
+(* parse_total: the three outcomes of the loop; PDiverge needs less fuel than lines *)
+Example res_ok : parse_modified_res ut_src <> PErr /\ parse_modified_res [49;32;53;32;51] = PErr.
+Proof. vm_compute. split; [discriminate|reflexivity]. Qed.
+Example diverge_is_a_real_value : parse_loop 1 [[49;32;48;32;48]; [49;32;48;32;48]] [] = PDiverge.
+Proof. vm_compute. reflexivity. Qed.
+
+(* print_of_parse_of_print: hypothesis met with cs' different from cs is impossible (it gives cs' = cs when WF);
+   here the premise holds with a report whose lines are LF-free *)
+Example pofp_premise : Forall (fun c => Forall nolf (mc_lines c)) ex_report /\
+  parse_modified (print_modified ex_report) = Some ex_report.
+Proof. split; [apply wf_lines_nolf, ex_report_wf|vm_compute; reflexivity]. Qed.
+
+(* print_injective: two different well-formed reports, different texts *)
+Example inj_distinct : WF [MkMC 1 0 [[49]]] /\ WF [MkMC 1 0 []; MkMC 1 0 []] /\
+  print_modified [MkMC 1 0 [[49]]] <> print_modified [MkMC 1 0 []; MkMC 1 0 []].
+Proof. split; [solve_wf|split; [solve_wf|vm_compute; discriminate]]. Qed.
+
+(* print_parse_pre_roundtrip_partial: CR inside a line is fine for str::lines, CR at the end is not *)
+Definition ex_pre : list mchunk := [MkMC 7 2 [[97; 13; 98]; []]].
+Example ex_pre_hyps : WF ex_pre /\ Forall (fun c => Forall no_cr_end (mc_lines c)) ex_pre.
+Proof.
+  split; [unfold ex_pre; solve_wf|].
+  repeat constructor; intros l' E.
+  - destruct l' as [|x [|y [|z l']]]; try discriminate E. destruct l'; discriminate E.
+  - destruct l'; discriminate E.
+Qed.
+Example ex_pre_roundtrip : parse_modified_pre (print_modified ex_pre) = Some ex_pre.
+Proof. vm_compute. reflexivity. Qed.
+Example ex_report_pre_loses_cr : parse_modified_pre (print_modified ex_report) <> Some ex_report.
+Proof. vm_compute. discriminate. Qed.
+
+(* report_print_parse_roundtrip: "x\ny\n" formatted to "x\r\r\ny\n": the reported line is x CR *)
+Definition tc : text := [120; 10; 121; 10].
+Definition td : text := [120; 13; 13; 10; 121; 10].
+Example report_cr : map mchunk_of (impl_modified_lines tc td) = [MkMC 1 1 [[120; 13]]].
+Proof. vm_compute. reflexivity. Qed.
+Example report_cr_hyps : N.of_nat (length (dlines tc)) < U32_MAX /\ N.of_nat (length (dlines td)) <= USIZE_MAX.
+Proof. vm_compute. split; [reflexivity|discriminate]. Qed.
+Example report_cr_survives :
+  parse_modified (print_modified (map mchunk_of (impl_modified_lines tc td))) = Some [MkMC 1 1 [[120; 13]]].
+Proof. vm_compute. reflexivity. Qed.
